@@ -86,9 +86,11 @@ def parseItemsG (strict : Bool) : Nat → Nat → Bytes → Except Err (List Nod
       | .ok (rest, r2) => .ok (v :: rest, r2)
 end
 
-/-- `Parse(blob)`: empty input and trailing bytes are `ErrInvalidMsgpack` -/
+/-- `Parse(blob)`: empty input and trailing bytes are `ErrInvalidMsgpack`.
+    Fuel: a value costs one unit and at least one byte; an array element costs one more unit
+    for the loop step, so `2 * length` is never exhausted before the input is. -/
 def parseG (strict : Bool) (b : Bytes) : Except Err Node :=
-  match parseNodeG strict b.length b with
+  match parseNodeG strict (2 * b.length) b with
   | .error e => .error e
   | .ok (t, []) => .ok t
   | .ok (_, _ :: _) => .error .msgpack
